@@ -19,7 +19,10 @@ META = {
              "target chunk size 2^0..2^10, max_scales, dataset type/encoding/"
              "data type/channels; Hypothesis sub-check (shrinkable) and a "
              "seeded sweep; non-trivial = anisotropic or >= 3 levels; "
-             "distinct by the full input tuple."),
+             "distinct by the full input tuple."
+             ' Also: descriptions that carry their own encoding / block si'
+             'ze, decimal voxel sizes (rounding ties of the key formatting'
+             '), axis ratios up to 2^40.'),
     "trusted_base": ["validity predicate formalising the docstring of "
                      "fill_scales_for_dyadic_pyramid", "vlib/refs/"
                      "pyramid_model.py (cross-validated in C06)"],
